@@ -1,8 +1,11 @@
 #!/bin/bash
 # usage: seedtest.sh <patch.diff> <property> [check args...]   : apply a seeded change to /repo, run the check, undo
+#        SEED_REPO=<scratch worktree of /repo> makes it use that tree instead (several seeds can then run side by side)
 patch="$1"; prop="$2"; shift 2
-clean() { git -C /repo checkout HEAD -- . 2>/dev/null; git -C /repo reset -q; git -C /repo clean -fdq -- middleware; }
-cd /repo && { git apply "$patch" 2>/dev/null || git apply -3 "$patch" 2>/dev/null; } || { echo "APPLY FAILED (use a patch_head.diff rebased onto the fix commits)"; clean; exit 9; }
+R=${SEED_REPO:-/repo}
+[ "$R" != /repo ] && export VERIF_REPO=$R
+clean() { git -C $R checkout HEAD -- . 2>/dev/null; git -C $R reset -q; git -C $R clean -fdq -- middleware; }
+cd $R && { git apply "$patch" 2>/dev/null || git apply -3 "$patch" 2>/dev/null; } || { echo "APPLY FAILED (use a patch_head.diff rebased onto the fix commits)"; clean; exit 9; }
 git -C /repo reset -q
 cd /verif && ./check "$prop" --no-evidence "$@" 2>&1 | tail -8
 rc=${PIPESTATUS[0]}
